@@ -47,8 +47,37 @@ func (t *GT) String() string {
 		return t.Name
 	case "unit":
 		return "()"
+	case "tparam":
+		return t.Name
 	}
 	return t.K
+}
+
+// hasTParam / substT: field and payload types of generic declarations may mention the declaration's own type
+// parameters inside compound types ([]T, T*int, Opt<T>); an instance substitutes its arguments.
+func hasTParam(t *GT) bool {
+	if t == nil {
+		return false
+	}
+	return t.K == "tparam" || hasTParam(t.A) || hasTParam(t.B) || hasTParam(t.Arg) || hasTParam(t.Arg2)
+}
+
+func substT(t, a1, a2 *GT) *GT {
+	if t == nil {
+		return nil
+	}
+	if t.K == "tparam" {
+		if t.Name == "U" && a2 != nil {
+			return a2
+		}
+		return a1
+	}
+	if !hasTParam(t) {
+		return t
+	}
+	n := *t
+	n.A, n.B, n.Arg, n.Arg2 = substT(t.A, a1, a2), substT(t.B, a1, a2), substT(t.Arg, a1, a2), substT(t.Arg2, a1, a2)
+	return &n
 }
 
 func (t *GT) Eq(o *GT) bool { return t.String() == o.String() }
@@ -327,7 +356,37 @@ func fieldType(rc *gRec, f gField, inst *GT) *GT {
 		}
 		return inst.Arg
 	}
+	if hasTParam(f.T) {
+		return substT(f.T, inst.Arg, inst.Arg2)
+	}
 	return f.T
+}
+
+// paramType: a compound type over the type parameter T of the generic declaration being generated.
+func (g *Gen) paramType() *GT {
+	tp := &GT{K: "tparam", Name: "T"}
+	switch g.r.Intn(5) {
+	case 0:
+		return tSlice(tp)
+	case 1:
+		return tTuple(tp, g.baseType())
+	case 2, 3:
+		var cands []*GT
+		for _, u := range g.unis {
+			if u.Generic {
+				cands = append(cands, &GT{K: "uni", Name: u.Name, Arg: tp})
+			}
+		}
+		for _, rc := range g.recs {
+			if rc.Generic && rc.NParams == 1 {
+				cands = append(cands, &GT{K: "rec", Name: rc.Name, Arg: tp})
+			}
+		}
+		if len(cands) > 0 {
+			return cands[g.r.Intn(len(cands))]
+		}
+	}
+	return tSlice(tp)
 }
 
 // ---- expressions ----
@@ -687,7 +746,7 @@ func (g *Gen) expr(t *GT, env *scope, d int) string {
 		if c.Payload == nil {
 			return c.Name
 		}
-		return c.Name + " " + g.atom(c.Payload, env, d-1)
+		return c.Name + " " + g.atom(substT(c.Payload, t.Arg, t.Arg2), env, d-1)
 	case "unit":
 		return "()"
 	}
@@ -856,7 +915,7 @@ func (g *Gen) unionMatch(target string, ut *GT, t *GT, env *scope, indent int, d
 	}
 	for _, ci := range order[:covered] {
 		c := u.Cases[ci]
-		pt := c.Payload
+		pt := substT(c.Payload, ut.Arg, ut.Arg2)
 		if c.TParam {
 			pt = ut.Arg
 		}
@@ -927,6 +986,9 @@ func (g *Gen) itemRecord() {
 			continue
 		}
 		ft := g.randType(1)
+		if generic && g.o.NestedGeneric && g.r.Chance(1, 2) {
+			ft = g.paramType() // []T, T*int, Opt<T>, Box<T>: the parameter flows through another type
+		}
 		g.useType(ft)
 		rc.Fields = append(rc.Fields, gField{Name: fn, T: ft})
 		fs = append(fs, fn+": "+ft.String())
@@ -990,6 +1052,14 @@ func (g *Gen) itemUnion() {
 		case g.r.Chance(1, 3):
 			u.Cases = append(u.Cases, gCase{Name: cn})
 			lines = append(lines, "  | "+cn)
+		case u.Generic && g.o.NestedGeneric && g.r.Chance(1, 3):
+			pt := g.paramType()
+			if pt.K == "tuple" {
+				pt = tSlice(&GT{K: "tparam", Name: "T"})
+			}
+			g.useType(pt)
+			u.Cases = append(u.Cases, gCase{Name: cn, Payload: pt})
+			lines = append(lines, "  | "+cn+" of "+pt.String())
 		default:
 			pt := g.randType(1)
 			if pt.K == "tuple" { // payload tuples need parentheses in some positions; keep them simple
